@@ -9,6 +9,43 @@ Local Open Scope string_scope.
 Local Open Scope bool_scope.
 Local Open Scope list_scope.
 
+(* ------------------------------------------------------------------ parentheses leave no node *)
+Fixpoint unpar (d : dtree) : dtree := match d with DPar x => unpar x | _ => d end.
+Lemma strip_unpar d : strip (unpar d) = strip d.
+Proof. induction d; try reflexivity. simpl. assumption. Qed.
+Lemma wfn_unpar d : wfn d = true -> wfn (unpar d) = true.
+Proof. induction d; intros H; try exact H. simpl in *. auto. Qed.
+Lemma src_ok_unpar d : src_ok d = true -> src_ok (unpar d) = true.
+Proof. induction d; intros H; try exact H. simpl in *. auto. Qed.
+Lemma dsize_unpar d : dsize (unpar d) <= dsize d.
+Proof. induction d; simpl; lia. Qed.
+Lemma unpar_not_par d x : unpar d <> DPar x.
+Proof. induction d; simpl; try discriminate. assumption. Qed.
+
+Lemma level_name_cases L : In (level_name L) ["or_test"; "and_test"; "comparison"; "expr"; "xor_expr"; "and_expr"; "shift_expr"; "arith_expr"; "term"].
+Proof. destruct L as [|[|[|[|[|[|[|[|[|L]]]]]]]]]; simpl; tauto. Qed.
+
+(* the root of the tree of a well-formed AST: its kind *)
+Definition root_kind (t : ltree) : string := match t with LNode d _ => d | _ => "" end.
+Lemma strip_is_node d : wfn d = true -> exists k cs, strip d = LNode k cs /\ mem_str k ["tuplelist_comp"; "set_comp"] = false.
+Proof. induction d as [x IH|s|t|t|k|L d0 IH0 rest|x IH|op x IH|b IHb e IHe|f IHf args tr|o IH nm|k items tr|items tr]; intros W.
+  - simpl in *. exact (IH W).
+  - eexists; eexists; split; reflexivity.
+  - eexists; eexists; split; reflexivity.
+  - eexists; eexists; split; reflexivity.
+  - cbn [strip]. destruct (k ==s "None"); [|destruct (k ==s "True")]; eexists; eexists; split; reflexivity.
+  - simpl in W. apply andb_prop in W as [W _]. apply andb_prop in W as [W _]. apply andb_prop in W as [W _]. apply andb_prop in W as [_ Hne].
+    cbn [strip]. unfold mk_chain. destruct rest as [|p rest]; [discriminate Hne|]. cbn [map].
+    eexists; eexists; split; [reflexivity|]. pose proof (level_name_cases L) as H. simpl in H.
+    destruct H as [<-|[<-|[<-|[<-|[<-|[<-|[<-|[<-|[<-|[]]]]]]]]]]; reflexivity.
+  - eexists; eexists; split; reflexivity.
+  - eexists; eexists; split; reflexivity.
+  - eexists; eexists; split; reflexivity.
+  - eexists; eexists; split; reflexivity.
+  - eexists; eexists; split; reflexivity.
+  - cbn [strip]. destruct k, items as [|x [|y items]]; try destruct tr; eexists; eexists; split; reflexivity.
+  - cbn [strip]. destruct items; eexists; eexists; split; reflexivity. Qed.
+
 Section Main.
 Variables (c : cfg) (dd : list string).
 Notation PR := (printable c dd).
@@ -17,60 +54,48 @@ Notation built := (built c dd).
 
 (* ---- leaves *)
 Lemma built_name s : src_ok (DName s) = true -> built (DName s).
-Proof. intros Hs e Hw _. cbn [strip] in Hw. rewrite walk_node_eq, (wn_var c "var") in Hw; [|simpl; tauto].
+Proof. intros Hs e Hw. cbn [strip] in Hw. rewrite walk_node_eq, (wn_var c "var") in Hw; [|simpl; tauto].
   cbn [map nth walk] in Hw. destruct (mem_str s dd) eqn:M; [|discriminate Hw]. inversion Hw; subst.
   cbn [printable]. rewrite M. exact Hs. Qed.
 
 Lemma built_num t : wfn (DNum t) = true -> built (DNum t).
-Proof. intros Wf e Hw Hkf. cbn [strip] in Hw. rewrite walk_number in Hw.
+Proof. intros Wf e Hw. cbn [strip] in Hw. rewrite walk_number in Hw.
   destruct t as [s|n|[m|]|s|s|b ty]; simpl in Wf; try discriminate Wf; cbn [walk] in Hw; try discriminate Hw;
-    inversion Hw; subst; exact Hkf. Qed.
+    inversion Hw; subst; reflexivity. Qed.
 
 Lemma built_str t : wfn (DStr t) = true -> built (DStr t).
-Proof. intros Wf e Hw Hkf. cbn [strip] in Hw. rewrite walk_node_eq, (wn_var c "string") in Hw; [|simpl; tauto].
+Proof. intros Wf e Hw. cbn [strip] in Hw. rewrite walk_node_eq, (wn_var c "string") in Hw; [|simpl; tauto].
   cbn [map nth] in Hw.
   destruct t as [s|n|m|s|s|b ty]; simpl in Wf; try discriminate Wf; cbn [walk] in Hw; try discriminate Hw;
-    inversion Hw; subst; exact Hkf. Qed.
+    inversion Hw; subst; reflexivity. Qed.
 
 Lemma built_const k : wfn (DConst k) = true -> built (DConst k).
-Proof. intros Wf e Hw Hkf. cbn [wfn] in Wf. apply mem_str_In in Wf. simpl in Wf.
+Proof. intros Wf e Hw. cbn [wfn] in Wf. apply mem_str_In in Wf. simpl in Wf.
   destruct Wf as [<-|[<-|[<-|[]]]]; cbn in Hw; inversion Hw; subst; reflexivity. Qed.
 
 (* ---- not / unary / power *)
 Lemma built_not x : built x -> built (DNot x).
-Proof. intros Bx e Hw Hkf. cbn [strip] in Hw. rewrite walk_node_eq, wn_not in Hw. cbn [map] in Hw.
+Proof. intros Bx e Hw. cbn [strip] in Hw. rewrite walk_node_eq, wn_not in Hw. cbn [map] in Hw.
   destruct (W (strip x)) as [lft|] eqn:Wx; [|discriminate Hw].
-  destruct (call_bin_inv c "__eq__" "==" true false true lft (EVal (PBool false)) e eq_refl Hw) as [E _].
-  apply (not_printable c dd lft e Hw). apply (Bx lft Wx). subst e. apply kf_args in Hkf. cbn [forallb] in Hkf.
-  apply andb_prop in Hkf as [K _]. exact K. Qed.
-
-Lemma py_neg_inf v v' : py_neg v = Some v' -> is_inf v' = is_inf v.
-Proof. destruct v; simpl; intros H; inversion H; reflexivity. Qed.
+  exact (not_printable c dd lft e Hw (Bx lft Wx)). Qed.
 
 Lemma built_factor op x : wfn (DFactor op x) = true -> built x -> built (DFactor op x).
-Proof. intros Wf Bx e Hw Hkf. simpl in Wf. apply andb_prop in Wf as [Wf _]. apply andb_prop in Wf as [Hu _].
+Proof. intros Wf Bx e Hw. simpl in Wf. apply andb_prop in Wf as [Wf _]. apply andb_prop in Wf as [Hu _].
   cbn [strip] in Hw. rewrite walk_node_eq, wn_factor in Hw. cbn [map tok_text] in Hw.
   destruct (W (strip x)) as [rgt|] eqn:Wx; [|discriminate Hw].
   destruct (uop_cases _ Hu) as [ -> | [ -> | -> ] ].
-  - change (remap factor_remap "+") with "__pos__" in Hw. pose proof (call_pos c rgt e Hw) as E. subst e. exact (Bx rgt Wx Hkf).
-  - change (remap factor_remap "-") with "__neg__" in Hw.
-    apply (neg_printable c dd rgt e Hw); [|exact Hkf]. apply (Bx rgt Wx).
-    destruct (call_neg c rgt e Hw) as [[v [v' [-> [Hn ->]]]]|[_ ->]].
-    + cbn [expr_kf_ok] in *. rewrite <- (py_neg_inf _ _ Hn). exact Hkf.
-    + apply kf_args in Hkf. cbn [forallb] in Hkf. apply andb_prop in Hkf as [K _]. exact K.
+  - change (remap factor_remap "+") with "__pos__" in Hw. exact (pos_printable c dd rgt e Hw (Bx rgt Wx)).
+  - change (remap factor_remap "-") with "__neg__" in Hw. exact (neg_printable c dd rgt e Hw (Bx rgt Wx)).
   - change (remap factor_remap "~") with "~" in Hw. unfold call_method in Hw.
     destruct (is_term rgt); [|discriminate Hw]. cbn [negb] in Hw.
     change (find_method "~" method_table) with (@None mspec) in Hw. discriminate Hw. Qed.
 
 Lemma built_power b e0 : built b -> built e0 -> built (DPower b e0).
-Proof. intros Bb Be e Hw Hkf. cbn [strip] in Hw. rewrite walk_node_eq, wn_power in Hw.
+Proof. intros Bb Be e Hw. cbn [strip] in Hw. rewrite walk_node_eq, wn_power in Hw.
   cbn [List.length Nat.ltb Nat.leb map all_ok] in Hw.
   destruct (W (strip b)) as [a|] eqn:Wa; [|discriminate Hw]. destruct (W (strip e0)) as [b'|] eqn:Wb; [|discriminate Hw].
   cbn [pow_fold] in Hw. destruct (call_method c "__pow__" a [b']) as [e1|] eqn:Cm; [|discriminate Hw]. inversion Hw; subst e1.
-  destruct (call_bin_inv c "__pow__" "**" true false true a b' e eq_refl Cm) as [E _].
-  assert (K : expr_kf_ok a = true /\ expr_kf_ok b' = true).
-  { subst e. apply kf_args in Hkf. cbn [forallb] in Hkf. apply andb_prop in Hkf as [K1 K2]. apply andb_prop in K2 as [K2 _]. auto. }
-  destruct K as [Ka Kb]. exact (pow_printable c dd a b' e Cm (Bb a Wa Ka) (Be b' Wb Kb) Hkf). Qed.
+  exact (pow_printable c dd a b' e Cm (Bb a Wa) (Be b' Wb)). Qed.
 
 (* ---- calls *)
 Definition args_node' (ds : list dtree) : ltree :=
@@ -84,52 +109,63 @@ Proof. destruct args as [|x args]; [intros H; exact H|]. cbn [args_node' call_ar
 Lemma strip_call f args tr : strip (DCall f args tr) = LNode "funccall" [strip f; args_node' args].
 Proof. destruct args; reflexivity. Qed.
 
-Lemma forallb_app_l {A} (f : A -> bool) a b : forallb f (a ++ b) = true -> forallb f a = true.
-Proof. rewrite forallb_app. intros H. apply andb_prop in H as [H _]. exact H. Qed.
+(* f(args) *)
+Lemma built_call_name s args tr f : strip f = LNode "var" [LTok (TName s)] -> negb (is_sym_text s) = true ->
+  (forall x, In x args -> built x) -> built (DCall f args tr).
+Proof. intros Ef Hs Ba e Hw. rewrite strip_call, Ef in Hw. rewrite walk_node_eq, wn_funccall in Hw.
+  cbn [List.length Nat.ltb Nat.leb map tok_text] in Hw. change ("var" ==s "getattr") with false in Hw.
+  change (negb ("var" ==s "var")) with false in Hw. cbv iota in Hw.
+  match type of Hw with match ?A with Ok _ => _ | Err => _ end = _ => destruct A as [al|] eqn:CA; [|discriminate Hw] end.
+  apply call_args_inv in CA. apply mk_expr_inv in Hw as [-> [Hk _]].
+  cbn [printable]. rewrite (args_pr c dd args al CA Ba), Hk, Hs. reflexivity. Qed.
 
-Lemma built_call f args tr : src_ok (DCall f args tr) = true ->
-  (forall o n, f = DAttr o n -> built o) -> (forall x, In x args -> built x) -> built (DCall f args tr).
-Proof. intros Hs Bo Ba e Hw Hkf. cbn [src_ok] in Hs. apply andb_prop in Hs as [Hs _]. apply andb_prop in Hs as [Hf Hsf].
-  rewrite strip_call in Hw. rewrite walk_node_eq, wn_funccall in Hw. cbn [List.length Nat.ltb Nat.leb] in Hw.
-  destruct f as [| s | | | | | | | | | o n | |]; try discriminate Hf.
-  - (* f(args) *)
-    cbn [strip map tok_text] in Hw. change ("var" ==s "getattr") with false in Hw. cbv iota in Hw.
-    match type of Hw with match ?A with Ok _ => _ | Err => _ end = _ => destruct A as [al|] eqn:CA; [|discriminate Hw] end.
-    apply call_args_inv in CA. apply mk_expr_inv in Hw as [-> [Hk _]].
-    cbn [printable]. rewrite (args_pr c dd args al CA (kf_args _ _ _ _ _ Hkf) Ba), Hk. cbn [andb].
-    cbn [src_ok] in Hsf. rewrite Hsf. reflexivity.
-  - (* o.n(args) *)
-    cbn [strip map tok_text] in Hw. change ("getattr" ==s "getattr") with true in Hw. cbv iota in Hw.
-    destruct (W (strip o)) as [self|] eqn:Wo; [|discriminate Hw].
-    match type of Hw with match ?A with Ok _ => _ | Err => _ end = _ => destruct A as [al|] eqn:CA; [|discriminate Hw] end.
-    apply call_args_inv in CA. cbn [src_ok] in Hsf. apply andb_prop in Hsf as [Hsf _]. apply andb_prop in Hsf as [_ Hd].
-    apply negb_true_iff in Hd.
-    destruct (call_method_shape c n self al e Hd Hw) as [op [i [m [extra E]]]].
-    assert (K : expr_kf_ok self = true /\ forallb expr_kf_ok al = true).
-    { subst e. apply kf_args in Hkf. cbn [forallb] in Hkf. apply andb_prop in Hkf as [K1 K2]. split; [exact K1|exact (forallb_app_l _ _ _ K2)]. }
-    destruct K as [Ks Kal].
-    apply (method_call_printable c dd n self al e Hd Hw (Bo o n eq_refl self Wo Ks)).
-    exact (args_pr c dd args al CA Kal Ba). Qed.
+(* o.n(args) *)
+Lemma built_call_method o n args tr f : strip f = LNode "getattr" [strip o; LTok (TName n)] ->
+  built o -> (forall x, In x args -> built x) -> built (DCall f args tr).
+Proof. intros Ef Bo Ba e Hw. rewrite strip_call, Ef in Hw. rewrite walk_node_eq, wn_funccall in Hw.
+  cbn [List.length Nat.ltb Nat.leb map tok_text] in Hw. change ("getattr" ==s "getattr") with true in Hw. cbv iota in Hw.
+  destruct (W (strip o)) as [self|] eqn:Wo; [|discriminate Hw].
+  match type of Hw with match ?A with Ok _ => _ | Err => _ end = _ => destruct A as [al|] eqn:CA; [|discriminate Hw] end.
+  apply call_args_inv in CA. destruct (is_dunder n) eqn:Hd; [discriminate Hw|].
+  exact (method_call_printable c dd n self al e Hd Hw (Bo self Wo) (args_pr c dd args al CA Ba)). Qed.
+
+(* anything else cannot be called *)
+Lemma built_call_other f args tr k cs : strip f = LNode k cs -> (k ==s "getattr") = false -> (k ==s "var") = false ->
+  built (DCall f args tr).
+Proof. intros Ef Hg Hv e Hw. rewrite strip_call, Ef in Hw. rewrite walk_node_eq, wn_funccall in Hw.
+  cbn [List.length Nat.ltb Nat.leb] in Hw. rewrite Hg, Hv in Hw. discriminate Hw. Qed.
 
 (* ---- displays *)
-Lemma built_coll k items tr : built (DColl k items tr).
-Proof. intros e Hw Hkf.
-  assert (Hd : exists d cs, strip (DColl k items tr) = LNode d cs /\ In d ["list"; "tuple"; "set"]).
-  { destruct k, items as [|x [|y items]]; cbn [strip]; try (destruct tr); eexists; eexists; (split; [reflexivity|simpl; tauto]). }
-  destruct Hd as [d [cs [E Hd]]]. rewrite E in Hw. rewrite walk_node_eq in Hw.
-  exact (coll_printable c dd d _ _ _ _ e Hd Hw Hkf). Qed.
+Lemma coll_items_strip k items tr : wfn (DColl k items tr) = true ->
+  exists d c0, strip (DColl k items tr) = LNode d [c0] /\ In d ["list"; "tuple"; "set"] /\
+    coll_items [c0] [W c0] (match c0 with LNode _ gcs => Some (map W gcs) | _ => None end) = Some (map W (map strip items)).
+Proof. intros Wf. simpl in Wf. apply andb_prop in Wf as [Hit Hshape]. rewrite forallb_forall in Hit.
+  destruct k, items as [|x [|y items]]; cbn [strip]; try (destruct tr; try discriminate Hshape);
+    try (eexists; eexists; split; [reflexivity|split; [simpl; tauto|reflexivity]]).
+  (* [x] : the lone item itself *)
+  destruct (strip_is_node x (Hit x (or_introl eq_refl))) as [kx [csx [Ex Hk]]].
+  eexists; eexists; split; [reflexivity|split; [simpl; tauto|]]. cbn [map]. rewrite Ex. cbn [coll_items]. rewrite Hk. reflexivity. Qed.
 
-Lemma built_dict items tr : built (DDict items tr).
-Proof. intros e Hw Hkf. destruct items as [|kv items].
+Lemma built_coll k items tr : wfn (DColl k items tr) = true -> (forall x, In x items -> built x) -> built (DColl k items tr).
+Proof. intros Wf Bi e Hw. destruct (coll_items_strip k items tr Wf) as [d [c0 [E [Hd Hl]]]]. rewrite E in Hw.
+  rewrite walk_node_eq in Hw. cbn [map] in Hw.
+  apply (coll_printable c dd d [c0] [W c0] _ None e _ Hd Hl); [|exact Hw].
+  intros x Hx. apply in_map_iff in Hx as [t [Ht Hin]]. apply in_map_iff in Hin as [it [<- Hit]]. exact (Bi it Hit x Ht). Qed.
+
+Lemma built_dict items tr : (forall kv, In kv items -> built (fst kv) /\ built (snd kv)) -> built (DDict items tr).
+Proof. intros Bi e Hw. destruct items as [|kv items].
   - cbn in Hw. discriminate Hw.
   - remember (kv :: items) as l.
     assert (E : strip (DDict l tr) = LNode "dict" [LNode "dict_comp" (map (fun kv => LNode "key_value" [strip (fst kv); strip (snd kv)]) l)]).
     { subst l. reflexivity. }
-    rewrite E in Hw. rewrite walk_node_eq in Hw. apply (dict_printable c dd _ _ _ _ e Hw); [| |exact Hkf].
-    + intros l0 Hl0 r x Hr Hx. inversion Hl0; subst l0. clear Hl0. apply in_map_iff in Hr as [t [<- Ht]].
-      apply in_map_iff in Ht as [kv0 [<- _]]. rewrite walk_node_eq, wn_key_value in Hx. cbn [map] in Hx.
-      destruct (W (strip (fst kv0))) as [[| k | | |]|]; try discriminate Hx.
-      destruct (W (strip (snd kv0))) as [[| v | | |]|]; try discriminate Hx. inversion Hx. eauto.
+    rewrite E in Hw. rewrite walk_node_eq in Hw. apply (dict_printable c dd _ _ _ _ e Hw).
+    + intros l0 Hl0 x Hr. inversion Hl0; subst l0. clear Hl0. apply in_map_iff in Hr as [t [Hx Ht]].
+      apply in_map_iff in Ht as [kv0 [<- Hkv]]. rewrite walk_node_eq, wn_key_value in Hx. cbn [map] in Hx.
+      destruct (Bi kv0 Hkv) as [Bk Bv].
+      destruct (W (strip (fst kv0))) as [[| k | | |]|] eqn:Wk; try discriminate Hx.
+      destruct (W (strip (snd kv0))) as [[| v | | |]|] eqn:Wv; try discriminate Hx. inversion Hx.
+      pose proof (Bk _ Wk) as Pk. pose proof (Bv _ Wv) as Pv. cbn [printable] in Pk, Pv.
+      apply negb_true_iff in Pk. apply negb_true_iff in Pv. eauto.
     + intros l0 Hl0. inversion Hl0; subst l0. subst l. discriminate. Qed.
 
 (* ---- every source AST *)
@@ -151,28 +187,60 @@ Proof. induction n as [|n IH]; intros d Hs Wf Hsrc; [lia|].
     apply built_factor; [exact Wf|apply IH; [lia|exact Wx|exact Hsrc]].
   - simpl in Wf, Hs, Hsrc. apply andb_prop in Wf as [Wf We]. apply andb_prop in Wf as [Wf _]. apply andb_prop in Wf as [_ Wb].
     apply andb_prop in Hsrc as [Sb Se]. apply built_power; apply IH; try lia; assumption.
-  - pose proof Hsrc as Hsrc'. cbn [src_ok] in Hsrc'. apply andb_prop in Hsrc' as [Hs1 Sargs]. apply andb_prop in Hs1 as [_ Sf].
-    rewrite forallb_forall in Sargs.
+  - (* call: what is called, parentheses aside *)
+    cbn [src_ok] in Hsrc. apply andb_prop in Hsrc as [Sf Sargs]. rewrite forallb_forall in Sargs.
     simpl in Wf, Hs. apply andb_prop in Wf as [Wf _]. apply andb_prop in Wf as [Wf Wargs]. apply andb_prop in Wf as [_ Wff].
     rewrite forallb_forall in Wargs.
-    apply built_call; [exact Hsrc| |].
-    + intros o' n' ->. simpl in Wff, Sf, Hs. apply andb_prop in Wff as [_ Wo]. apply andb_prop in Sf as [_ So].
+    assert (Ba : forall x, In x args -> built x).
+    { intros x Hx. apply IH; [pose proof (dsize_items args x Hx); lia|exact (Wargs x Hx)|exact (Sargs x Hx)]. }
+    pose proof (wfn_unpar f Wff) as Wu. pose proof (src_ok_unpar f Sf) as Su. pose proof (dsize_unpar f) as Du.
+    pose proof (strip_unpar f) as Eu.
+    destruct (unpar f) as [x|s|t|t|k|L d0 rest|x|op x|b e0|g gargs gtr|o nm|k items gtr|items gtr] eqn:Uf.
+    + exfalso. exact (unpar_not_par f x Uf).
+    + apply (built_call_name s args tr f); [rewrite <- Eu; reflexivity|exact Su|exact Ba].
+    + apply (built_call_other f args tr "number" [LTok t]); [rewrite <- Eu; reflexivity|reflexivity|reflexivity].
+    + apply (built_call_other f args tr "string" [LTok t]); [rewrite <- Eu; reflexivity|reflexivity|reflexivity].
+    + destruct (strip_is_node (DConst k) Wu) as [kk [cs [E _]]]. cbn [wfn] in Wu. apply mem_str_In in Wu. simpl in Wu.
+      destruct Wu as [<-|[<-|[<-|[]]]]; eapply built_call_other; try (rewrite <- Eu; reflexivity); reflexivity.
+    + destruct (strip_is_node _ Wu) as [kk [cs [E _]]].
+      assert (Hk : In kk ["or_test"; "and_test"; "comparison"; "expr"; "xor_expr"; "and_expr"; "shift_expr"; "arith_expr"; "term"]).
+      { pose proof Wu as Wu'. simpl in Wu'. apply andb_prop in Wu' as [Wu' _]. apply andb_prop in Wu' as [Wu' _]. apply andb_prop in Wu' as [Wu' _].
+        apply andb_prop in Wu' as [_ Hne]. cbn [strip] in E. unfold mk_chain in E. destruct rest as [|p rest]; [discriminate Hne|].
+        cbn [map] in E. inversion E. apply level_name_cases. }
+      apply (built_call_other f args tr kk cs); [rewrite <- Eu; exact E| |];
+        simpl in Hk; destruct Hk as [<-|[<-|[<-|[<-|[<-|[<-|[<-|[<-|[<-|[]]]]]]]]]]; reflexivity.
+    + eapply built_call_other; try (rewrite <- Eu; reflexivity); reflexivity.
+    + eapply built_call_other; try (rewrite <- Eu; reflexivity); reflexivity.
+    + eapply built_call_other; try (rewrite <- Eu; reflexivity); reflexivity.
+    + eapply built_call_other; [rewrite <- Eu; apply strip_call|reflexivity|reflexivity].
+    + simpl in Wu, Su, Du. apply andb_prop in Wu as [_ Wo]. apply andb_prop in Su as [_ So].
+      apply (built_call_method o nm args tr f); [rewrite <- Eu; reflexivity| |exact Ba].
       apply IH; [lia|exact Wo|exact So].
-    + intros x Hx. apply IH; [pose proof (dsize_items args x Hx); lia|exact (Wargs x Hx)|exact (Sargs x Hx)].
+    + destruct (strip_is_node _ Wu) as [kk [cs [E _]]].
+      assert (Hk : In kk ["list"; "tuple"; "set"]).
+      { destruct (coll_items_strip k items gtr Wu) as [d [c0 [E2 [Hd _]]]]. rewrite E in E2. inversion E2. exact Hd. }
+      apply (built_call_other f args tr kk cs); [rewrite <- Eu; exact E| |];
+        simpl in Hk; destruct Hk as [<-|[<-|[<-|[]]]]; reflexivity.
+    + destruct items; eapply built_call_other; try (rewrite <- Eu; reflexivity); reflexivity.
   - intros e Hw. cbn [strip] in Hw. rewrite walk_node_eq, wn_getattr in Hw. discriminate Hw.
-  - apply built_coll.
-  - apply built_dict. Qed.
+  - pose proof Wf as Wf'. simpl in Wf', Hs. apply andb_prop in Wf' as [Wi _]. rewrite forallb_forall in Wi.
+    cbn [src_ok] in Hsrc. rewrite forallb_forall in Hsrc.
+    apply built_coll; [exact Wf|]. intros x Hx. apply IH; [pose proof (dsize_items items x Hx); lia|exact (Wi x Hx)|exact (Hsrc x Hx)].
+  - simpl in Wf, Hs. apply andb_prop in Wf as [Wi _]. rewrite forallb_forall in Wi.
+    cbn [src_ok] in Hsrc. rewrite forallb_forall in Hsrc.
+    apply built_dict. intros kv Hkv. specialize (Wi kv Hkv). specialize (Hsrc kv Hkv).
+    apply andb_prop in Wi as [Wk Wv]. apply andb_prop in Hsrc as [Sk Sv]. pose proof (dsize_kvs items kv Hkv).
+    split; apply IH; try lia; assumption. Qed.
 
 Theorem built_printable d e : wfn d = true -> src_ok d = true ->
-  walk c dd (strip d) = Ok e -> expr_kf_ok e = true -> printable c dd e = true.
+  walk c dd (strip d) = Ok e -> printable c dd e = true.
 Proof. intros Wf Hs. exact (built_size (S (dsize d)) d (Nat.lt_succ_diag_r _) Wf Hs e). Qed.
 
 (* parse the text of an AST, print the result, parse again: the same expression object *)
 Theorem roundtrip_of_source d e : wfn d = true -> src_ok d = true ->
-  parse c dd (unparse d) = Ok e -> expr_kf_ok e = true ->
-  parse c dd (to_python e) = Ok e.
-Proof. intros Wf Hs Hp Hkf. unfold parse in Hp. rewrite (lark_of_unparse d Wf) in Hp. unfold parse_tree in Hp.
+  parse c dd (unparse d) = Ok e -> parse c dd (to_python e) = Ok e.
+Proof. intros Wf Hs Hp. unfold parse in Hp. rewrite (lark_of_unparse d Wf) in Hp. unfold parse_tree in Hp.
   destruct (walk c dd (strip d)) as [e'|] eqn:Hw; [|discriminate Hp]. destruct (is_term e') eqn:Ht; [|discriminate Hp].
-  inversion Hp; subst e'. apply printable_roundtrip; [exact (built_printable d e Wf Hs Hw Hkf)|exact Ht]. Qed.
+  inversion Hp; subst e'. apply printable_roundtrip; [exact (built_printable d e Wf Hs Hw)|exact Ht]. Qed.
 
 End Main.
